@@ -30,6 +30,7 @@ from harness import indep_ber as B
 from harness import indep_usm as U
 from harness import refagent as RA
 from harness import walklib as W
+from harness import rawdigest as RD
 from harness import usmparams as UP
 from harness.common import Result, run_driver
 
@@ -196,6 +197,11 @@ def _bases():
     agent, s, client = make_world("v3", "auth")
     W.run(client.get(RA.OID(OID)))
     out.append(("discovery", "v3", "auth", agent.raw_log[0][1], agent))
+    # an engine that encrypts its reports (and pads like a block cipher): what follows a damaged
+    # discovery reply is an encrypted notInTimeWindow report
+    agent, s, client = make_world("v3", "authpriv-pad")
+    W.run(client.get(RA.OID(OID)))
+    out.append(("discovery", "v3", "authpriv-pad", agent.raw_log[0][1], agent))
     trap = B.enc_community_msg(1, b"public", B.enc_pdu(0xA7, 77, 0, 0, [([1, 3, 6, 1, 2, 1, 1, 3, 0], ["ticks", 5]), ([1, 3, 6, 1, 6, 3, 1, 1, 4, 1, 0], ["oid", [1, 3, 6, 1, 4, 1, 9]]), (OID, ["str", "68"])]))
     out.append(("trap", "v2c", "noauth", trap, None))
     return out, trap
@@ -214,7 +220,7 @@ def value_mutations(entry, dg):
         payload = B.tlv(items[3][0], items[3][1])
         base = dict(msg_id=m["msg_id"], max_size=m["max_size"], flags=m["flags"], engine_id=bytes(m["engine_id"]), boots=m["boots"], time_=m["time"], user=bytes(m["user"]), auth_params=bytes(m["auth_params"]), priv_params=bytes(m["priv_params"]))
         for field in ("msg_id", "max_size", "boots", "time_"):
-            for v in big:
+            for v in big + ([base[field] + 1, base[field] ^ 4, base[field] + 100000] if field in ("boots", "time_") else []):
                 f = dict(base)
                 f[field] = v
                 out.append((f"value-{field}", B.enc_v3_message(f["msg_id"], f["max_size"], f["flags"], f["engine_id"], f["boots"], f["time_"], f["user"], f["auth_params"], f["priv_params"], payload)))
@@ -261,8 +267,12 @@ def run(ctx):
     base_list, valid_trap = bases()
     cases = []
     for entry, version, level, dg, agent in base_list:
-        for kind, m in mutations(ctx, dg) + value_mutations(entry, dg):
+        swept = mutations(ctx, dg) if not (ctx.quick and level == "authpriv-pad") else []  # quick: field values only
+        for kind, m in swept + value_mutations(entry, dg):
             cases.append((entry, version, level, kind, m))
+    # correctly signed responses with fields in the indefinite length form (x690 reads them)
+    for label, dg, _want in RD.indefinite_variants(ctx):
+        cases.append(("response", "v3", "auth", label, dg))
     for kind, m in special_datagrams(ctx):
         entry, version, level = ctx.rng.choice([("response", "v2c", "noauth"), ("response", "v3", "auth"), ("discovery", "v3", "auth"), ("trap", "v2c", "noauth"), ("response", "v1", "noauth")])
         cases.append((entry, version, level, kind, m))
